@@ -1,6 +1,7 @@
 /-
 Driver for C13:
-    valid (case SCHEMA DOC)                      → `v <doc> <op>*`   (1 = passes `Valid.validOp`)
+    valid (case SCHEMA DOC)                      → `v <doc> <op>* m <op>*`   (1 = passes `Valid.validOp`;
+                                                   after `m`: `Valid.specMergeable` per operation)
     shape (case SCHEMA (req DOC OPNAME|- VARS DATA) J)
         → `s <shape> <mayNull> <specErrors>`: `Valid.shapeResponse` of the response value `J`
           (the implementation's `data`), whether a variable with runtime value null is in use
@@ -8,6 +9,7 @@ Driver for C13:
 -/
 import Driver.ExecSexp
 import Gql.Exec.ValidDoc
+import Gql.Exec.ValidMerge
 import Gql.Exec.Shape
 open Gql Gql.Exec Driver C02Driver
 
@@ -21,7 +23,9 @@ def runValid (x : Sexp) : P String := do
     let s ← schemaOf sch
     let doc ← docOf d
     let ops := doc.ops.map (Valid.validOp s doc)
-    pure ("v " ++ bit (Valid.validDoc s doc) ++ String.join (ops.map (fun b => " " ++ bit b)))
+    let ms := doc.ops.map (Valid.specMergeable s doc)
+    pure ("v " ++ bit (Valid.validDoc s doc) ++ String.join (ops.map (fun b => " " ++ bit b)) ++ " m" ++
+      String.join (ms.map (fun b => " " ++ bit b)))
   | _ => fail "case"
 
 def runShape (x : Sexp) : P String := do
